@@ -22,16 +22,20 @@
 (*                                                                         *)
 (* Scenarios (one per behaviour, chosen in Init):                          *)
 (*   "validate" Env writes 1..MaxFiles files; CliValidate(files, v, how)   *)
-(*   "format"   Env writes a document; CliFormat(args); the same through   *)
-(*              the API (Open, Save) to a second path                      *)
+(*   "format"   Env writes a document; CliFormat(args) with OUT another    *)
+(*              file, IN itself or a symbolic link to IN; the same through *)
+(*              the API (Open, Save) on a copy                             *)
 (*   "schema"   CliSchema(v); the same through the API                     *)
 (*   "api"      Gen writes a generated document T; Loads(T); Open / Load / *)
 (*              LoadRaw of T; Dumps / Save / Dump(StringIO) / Dump(file);  *)
-(*              Loads / Open / Load / LoadRaw of what was written          *)
+(*              Loads / Open / Load / LoadRaw of what was written; then    *)
+(*              Rewrites times: the values change (same encoded length, or *)
+(*              other kinds), Save to the SAME path, Open / Load / LoadRaw *)
 (*                                                                         *)
-(* The constants SaveCodec, Newlines, ExitRule, RootSchema and DumpOptions  *)
-(* select the contract ("utf8", "verbatim", "contract", "own", "same") or  *)
-(* a deliberately broken variant that                                      *)
+(* The constants SaveCodec, Newlines, ExitRule, RootSchema, DumpOptions,    *)
+(* FormatOrder and OpenCache select the contract ("utf8", "verbatim",      *)
+(* "contract", "own", "same", "read-first", "none") or a deliberately      *)
+(* broken variant that                                                     *)
 (* the invariants must reject (non-vacuity; two of them are the behaviour  *)
 (* of the unchanged implementation).                                       *)
 (***************************************************************************)
@@ -48,7 +52,10 @@ CONSTANTS
     Newlines,      \* "verbatim" (contract) | "universal" (open()/text-mode file objects translate CR, CRLF -> LF)
     ExitRule,      \* "contract" | "raw" (sys.exit(problems)) | "skip-unparsed" (parse failures not counted)
     RootSchema,    \* "own" (contract: every root object against the schema of its type) | "map" (always the MAP schema)
-    DumpOptions    \* "same" (contract) | "sc-from-av" (dump mixes up two of its formatting options)
+    DumpOptions,   \* "same" (contract) | "sc-from-av" (dump mixes up two of its formatting options)
+    FormatOrder,   \* "read-first" (contract: format reads IN, then writes OUT) | "truncate-first" (OUT opened for writing first)
+    OpenCache,     \* "none" (contract: open reads the file as it is now) | "by-size" (text remembered per path and size)
+    Rewrites       \* how often the api scenario changes the values and saves to the same path again
 
 VARIABLES scen, pc, fs, env, mem, res, buf, pend, obs, hist
 
@@ -58,7 +65,8 @@ Nothing == [k |-> "nothing"]
 NoFile  == [k |-> "none"]
 Junk    == [k |-> "junk"]
 Garbage == [k |-> "garbage"]
-Paths   == {"t", "s", "d", "in", "out", "api", "f1", "f2", "f3"}
+Empty   == [k |-> "empty"]                         \* a file opened for writing and not written yet
+Paths   == {"t", "s", "d", "in", "apiin", "out", "api", "f1", "f2", "f3"}
 
 Pick(S) == IF Mode = "walk" THEN {RandomElement(S)} ELSE S
 
@@ -120,48 +128,52 @@ DefaultVersion == "8.2"                              \* of `mappyfile validate`
 ResolveVersion(a) == IF a = "default" THEN DefaultVersion ELSE a
 ZeroErr == [v \in Versions |-> 0]
 
-Dict(doc, strs, inc, com, nerr) == [k |-> "dict", doc |-> doc, strs |-> strs, inc |-> inc, com |-> com, nerr |-> nerr]
+\* rev: revision of the values (a later revision may have the same classes and lengths, other characters)
+Dict(doc, strs, inc, com, nerr, rev) == [k |-> "dict", doc |-> doc, strs |-> strs, inc |-> inc, com |-> com, nerr |-> nerr, rev |-> rev]
 
 \* the characters PrettyPrinter produces for dictionary d with layout lay (string values verbatim)
-StrText(d, lay) == [k |-> "str", doc |-> d.doc, strs |-> d.strs, inc |-> d.inc, com |-> d.com, lay |-> lay, nerr |-> d.nerr]
+StrText(d, lay) == [k |-> "str", doc |-> d.doc, strs |-> d.strs, inc |-> d.inc, com |-> d.com, lay |-> lay, nerr |-> d.nerr,
+                    rev |-> d.rev]
 
 \* writing characters through a codec
 FileOf(t, codec) ==
     IF \E i \in DOMAIN t.strs : ~Encodable(t.strs[i], codec) THEN [k |-> "partial"]     \* the codec raised
     ELSE [k |-> "map", doc |-> t.doc, units |-> [i \in DOMAIN t.strs |-> Encode(t.strs[i], codec)],
-          inc |-> t.inc, com |-> t.com, lay |-> t.lay, nerr |-> t.nerr]
+          inc |-> t.inc, com |-> t.com, lay |-> t.lay, nerr |-> t.nerr, rev |-> t.rev]
 
 \* text -> dictionary (string values verbatim; INCLUDE and comment handling by option)
 Parse(t, expand, comments) ==
     Dict(t.doc, t.strs,
          IF t.inc = "directive" /\ expand THEN "inlined" ELSE t.inc,
          IF t.com = "present" /\ comments THEN "present" ELSE "absent",
-         t.nerr)
+         t.nerr, t.rev)
 
-\* file -> text: UTF-8 decoding, then the line-break handling of the read path
-ReadFile(p, op) ==
-    LET f == fs[p] IN
+\* file -> text: UTF-8 decoding, then the line-break handling of the read path (F: the file system read)
+ReadFileIn(F, p, op) ==
+    LET f == F[p] IN
     IF f.k = "none" THEN [k |-> "error", e |-> "io"]
     ELSE IF f.k # "map" THEN [k |-> "error", e |-> "parse"]
     ELSE IF \E i \in DOMAIN f.units : ~Utf8OK(f.units[i]) THEN [k |-> "error", e |-> "decode"]
     ELSE [k |-> "str", doc |-> f.doc,
           strs |-> [i \in DOMAIN f.units |-> IF Translates(op) THEN Univ(Decode(f.units[i])) ELSE Decode(f.units[i])],
-          inc |-> f.inc, com |-> f.com, lay |-> f.lay, nerr |-> f.nerr]
+          inc |-> f.inc, com |-> f.com, lay |-> f.lay, nerr |-> f.nerr, rev |-> f.rev]
+ReadFile(p, op) == ReadFileIn(fs, p, op)
 
 \* open(path) / load(file object on path): the API functions reading a file
-ReadVia(op, p, expand, comments) ==
-    LET t == ReadFile(p, op) IN IF t.k = "error" THEN t ELSE Parse(t, expand, comments)
+ReadViaIn(F, op, p, expand, comments) ==
+    LET t == ReadFileIn(F, p, op) IN IF t.k = "error" THEN t ELSE Parse(t, expand, comments)
+ReadVia(op, p, expand, comments) == ReadViaIn(fs, op, p, expand, comments)
 
 \* save(d, path, lay): dumps through the save codec
 SaveTo(d, lay) == FileOf(StrText(d, lay), SaveCodec)
 
-PostOf(r) == IF r.k = "dict" THEN [ok |-> TRUE, strs |-> r.strs, inc |-> r.inc, com |-> r.com]
-             ELSE [ok |-> FALSE, strs |-> <<>>, inc |-> "na", com |-> "absent"]
+PostOf(r) == IF r.k = "dict" THEN [ok |-> TRUE, strs |-> r.strs, inc |-> r.inc, com |-> r.com, rev |-> r.rev]
+             ELSE [ok |-> FALSE, strs |-> <<>>, inc |-> "na", com |-> "absent", rev |-> 0]
 Describe(f) == IF f.k = "map" THEN [written |-> TRUE,
                                     enc |-> IF \A i \in DOMAIN f.units : Utf8OK(f.units[i]) THEN "utf8" ELSE "other",
-                                    strs |-> [i \in DOMAIN f.units |-> Decode(f.units[i])], lay |-> f.lay]
-               ELSE [written |-> FALSE, enc |-> "none", strs |-> <<>>, lay |-> "none"]
-DescribeText(t) == [written |-> TRUE, enc |-> "chars", strs |-> t.strs, lay |-> t.lay]
+                                    strs |-> [i \in DOMAIN f.units |-> Decode(f.units[i])], lay |-> f.lay, rev |-> f.rev]
+               ELSE [written |-> FALSE, enc |-> "none", strs |-> <<>>, lay |-> "none", rev |-> 0]
+DescribeText(t) == [written |-> TRUE, enc |-> "chars", strs |-> t.strs, lay |-> t.lay, rev |-> t.rev]
 
 -----------------------------------------------------------------------------
 (* Scenario "validate"                                                     *)
@@ -261,7 +273,7 @@ FmtDocs == {"plain", "unicode", "include", "comments"}
 DocStrs(d) == IF d = "unicode" THEN <<Chars("mixed"), Chars("cjk"), Chars("astral"), Chars("lf-ml")>> ELSE <<Chars("ascii")>>
 SourceText(d) == [k |-> "str", doc |-> d, strs |-> DocStrs(d),
                   inc |-> IF d = "include" THEN "directive" ELSE "na",
-                  com |-> IF d = "comments" THEN "present" ELSE "absent", lay |-> "source", nerr |-> ZeroErr]
+                  com |-> IF d = "comments" THEN "present" ELSE "absent", lay |-> "source", nerr |-> ZeroErr, rev |-> 1]
 
 IndentArgs  == {"default", "0", "1", "2", "8"}
 SpacerArgs  == {"default", "space", "tab-escaped", "tab-literal"}
@@ -280,21 +292,29 @@ ApiLay(args) == [indent |-> ApiIndent(args.indent),
 ApiExpand(a)   == a # "no-expand"
 ApiComments(a) == a = "comments"
 
+\* what OUT names: another file, IN itself, or a symbolic link to IN (formatting in place)
+Targets == {"other", "same", "symlink"}
+OutFile(tg)    == IF tg = "other" THEN "out" ELSE "in"         \* the file the command writes
+ApiOutFile(tg) == IF tg = "other" THEN "api" ELSE "apiin"      \* the file the API call on the copy writes
+
 FmtEnv ==
     /\ pc = "env" /\ scen = "format"
-    /\ \E d \in FmtDocs, pre \in BOOLEAN :
-         /\ (pre => d = "plain")                               \* an existing output file is replaced
-         /\ fs' = [fs EXCEPT !["in"] = FileOf(SourceText(d), "utf8"),
+    /\ \E d \in FmtDocs, pre \in BOOLEAN, tg \in Targets :
+         /\ (pre => d = "plain" /\ tg = "other")              \* an existing output file is replaced
+         /\ fs' = [fs EXCEPT !["in"] = FileOf(SourceText(d), "utf8"), !["apiin"] = FileOf(SourceText(d), "utf8"),
                              !["out"] = IF pre THEN Junk ELSE NoFile, !["api"] = IF pre THEN Junk ELSE NoFile]
-         /\ env' = [doc |-> d, pre |-> pre]
-         /\ hist' = Append(hist, [a |-> "doc", doc |-> d, pre |-> pre])
+         /\ env' = [doc |-> d, pre |-> pre, target |-> tg]
+         /\ hist' = Append(hist, [a |-> "doc", doc |-> d, pre |-> pre, target |-> tg])
     /\ pc' = "cli"
     /\ UNCHANGED <<scen, mem, res, buf, pend, obs>>
 
-\* `mappyfile format IN OUT args` is save(open(IN, expand, comments), OUT, layout)
+\* `mappyfile format IN OUT args` is save(open(IN, expand, comments), OUT, layout): IN is read completely
+\* before OUT is opened for writing (the broken variant opens - and thereby empties - OUT first)
 CliFormat(args) ==
-    LET d == ReadVia("open", "in", ApiExpand(args.expand), ApiComments(args.comments)) IN
-    /\ fs' = [fs EXCEPT !["out"] = IF d.k = "dict" THEN SaveTo(d, ApiLay(args)) ELSE @]
+    LET o   == OutFile(env.target)
+        fs0 == IF FormatOrder = "truncate-first" THEN [fs EXCEPT ![o] = Empty] ELSE fs
+        d   == ReadViaIn(fs0, "open", "in", ApiExpand(args.expand), ApiComments(args.comments)) IN
+    /\ fs' = [fs0 EXCEPT ![o] = IF d.k = "dict" THEN SaveTo(d, ApiLay(args)) ELSE @]
     /\ mem' = d
     /\ obs' = [k |-> "format", status |-> IF d.k = "dict" THEN 0 ELSE 1]
     /\ hist' = Append(hist, [a |-> "format", args |-> args,
@@ -308,6 +328,8 @@ FmtCli ==
     /\ \E i \in IndentArgs, s \in SpacerArgs, q \in QuoteArgs, n \in NlArgs, e \in ExpandArgs, c \in CommentArgs :
          /\ (env.doc # "include" => e = "default")             \* the options only matter where there is something to act on
          /\ (env.doc # "comments" => c = "default")
+         /\ (env.target # "other" => /\ i \in {"default", "2"} /\ s = "default"       \* (bound: a sub-grid of the layouts in place)
+                                     /\ q \in {"default", "single"} /\ n \in {"default", "crlf-escaped"})
          /\ CliFormat([indent |-> i, spacer |-> s, quote |-> q, nl |-> n, expand |-> e, comments |-> c])
     /\ pc' = "api"
     /\ UNCHANGED <<scen, env, res, buf, pend>>
@@ -316,8 +338,8 @@ FmtCli ==
 FmtApi ==
     /\ pc = "api" /\ scen = "format"
     /\ LET call == hist[Len(hist)].post.api
-           d    == ReadVia("open", "in", call.expand, call.comments)
-       IN  /\ fs' = [fs EXCEPT !["api"] = IF d.k = "dict" THEN SaveTo(d, call.lay) ELSE @]
+           d    == ReadVia("open", "apiin", call.expand, call.comments)
+       IN  /\ fs' = [fs EXCEPT ![ApiOutFile(env.target)] = IF d.k = "dict" THEN SaveTo(d, call.lay) ELSE @]
            /\ res' = d
     /\ pc' = "done"
     /\ UNCHANGED <<scen, env, mem, buf, pend, obs, hist>>
@@ -370,6 +392,18 @@ LayChoices(h) == IF Mode = "walk"
 KindChoices(h) == IF Mode = "walk" THEN {[i \in StrIds |-> RandomElement(StrKinds)]} ELSE [StrIds -> StrKinds]
 
 Readers == {"open", "load", "loadraw"}            \* on a path; "loads" reads a string
+
+\* open(path) reads the file as it is at the time of the call.  The broken variant remembers the text it
+\* read per path and serves it again while the size of the file is the same.
+RECURSIVE Bytes(_)
+Bytes(u) == IF u = <<>> THEN 0 ELSE Head(u).w + Bytes(Tail(u))
+RECURSIVE SumOver(_)
+SumOver(us) == IF us = <<>> THEN 0 ELSE Bytes(Head(us)) + SumOver(Tail(us))
+SizeOf(f) == IF f.k = "map" THEN SumOver(f.units) ELSE 0
+CacheHit(p) == OpenCache = "by-size" /\ buf.cache.k = "entry" /\ buf.cache.path = p /\ buf.cache.size = SizeOf(fs[p])
+ReadOp(op, p) == IF op = "open" /\ CacheHit(p) THEN Parse(buf.cache.text, FALSE, FALSE) ELSE ReadVia(op, p, FALSE, FALSE)
+CacheAfter(op, p) == IF op = "open" /\ OpenCache = "by-size" /\ ~CacheHit(p) /\ ReadFile(p, op).k = "str"
+                     THEN [k |-> "entry", path |-> p, size |-> SizeOf(fs[p]), text |-> ReadFile(p, op)] ELSE buf.cache
 Writers == {"dumps", "save", "dump-sio", "dump-file"}
 
 \* the order of independent calls is free in a walk, fixed when everything is enumerated
@@ -379,9 +413,9 @@ ApiGen ==
     /\ pc = "env" /\ scen = "api"
     /\ \E kinds \in KindChoices(hist), lay \in LayChoices(hist) :
          LET src == [k |-> "str", doc |-> "generated", strs |-> [i \in StrIds |-> Chars(kinds[i])],
-                     inc |-> "na", com |-> "absent", lay |-> "source", nerr |-> ZeroErr]
+                     inc |-> "na", com |-> "absent", lay |-> "source", nerr |-> ZeroErr, rev |-> 1]
          IN  /\ fs' = [fs EXCEPT !["t"] = FileOf(src, "utf8")]        \* the generator writes T as UTF-8 bytes
-             /\ env' = [src |-> src, lay |-> lay]
+             /\ env' = [src |-> src, lay |-> lay, kinds |-> kinds]
              /\ hist' = Append(hist, [a |-> "gen", kinds |-> kinds, lay |-> lay, post |-> DescribeText(src)])
     /\ pc' = "loads-t"
     /\ UNCHANGED <<scen, mem, res, buf, pend, obs>>
@@ -398,13 +432,14 @@ LoadsT ==
 ReadT ==
     /\ pc = "read-t"
     /\ \E op \in NextOps(pend) :
-         LET d    == ReadVia(op, "t", FALSE, FALSE)
+         LET d    == ReadOp(op, "t")
              rest == pend \ {op}
          IN  /\ res' = d
+             /\ buf' = [buf EXCEPT !.cache = CacheAfter(op, "t")]
              /\ hist' = Append(hist, [a |-> op, of |-> "t", post |-> PostOf(d)])
              /\ pend' = IF rest = {} THEN Writers ELSE rest
              /\ pc' = IF rest = {} THEN "write" ELSE pc
-    /\ UNCHANGED <<scen, fs, env, mem, buf, obs>>
+    /\ UNCHANGED <<scen, fs, env, mem, obs>>
 
 \* the four writers print mem with the layout of the behaviour.  Every call gets its own copy of mem
 \* (mem is UNCHANGED): the printer may reorder the dictionary it is handed when sc is set.
@@ -433,13 +468,47 @@ Write ==
 ReadS ==
     /\ pc = "read-s"
     /\ \E op \in NextOps(pend) :
-         LET d    == IF op = "loads" THEN Parse(buf.s, FALSE, FALSE) ELSE ReadVia(op, "s", FALSE, FALSE)
+         LET d    == IF op = "loads" THEN Parse(buf.s, FALSE, FALSE) ELSE ReadOp(op, "s")
              rest == pend \ {op}
          IN  /\ res' = d
+             /\ buf' = [buf EXCEPT !.cache = IF op = "loads" THEN @ ELSE CacheAfter(op, "s")]
              /\ hist' = Append(hist, [a |-> op, of |-> "s", post |-> PostOf(d)])
              /\ pend' = rest
-             /\ pc' = IF rest = {} THEN "done" ELSE pc
-    /\ UNCHANGED <<scen, fs, env, mem, buf, obs>>
+             /\ pc' = IF rest = {} THEN (IF Rewrites > 0 THEN "rewrite" ELSE "done") ELSE pc
+    /\ UNCHANGED <<scen, fs, env, mem, obs>>
+
+\* The program changes the values of its dictionary and saves it to the SAME path again, at once (same
+\* clock second).  "same-length": every value keeps its classes and its encoded length, only the
+\* characters differ (the file keeps its size); "other-kinds": the values are drawn anew.
+OtherKinds(k) == IF Mode = "walk" THEN {[i \in StrIds |-> RandomElement(StrKinds)]}
+                 ELSE {[i \in StrIds |-> IF k[i] = "ascii" THEN "mixed" ELSE "ascii"]}
+Rewrite ==
+    /\ pc = "rewrite"
+    /\ \E how \in Pick({"same-length", "other-kinds"}) :
+       \E kinds \in (IF how = "same-length" THEN {env.kinds} ELSE OtherKinds(env.kinds)) :
+         LET d == [mem EXCEPT !.rev = @ + 1, !.strs = [i \in StrIds |-> Chars(kinds[i])]]
+             f == SaveTo(d, env.lay)
+         IN  /\ mem' = d
+             /\ res' = Nothing
+             /\ fs' = [fs EXCEPT !["s"] = f]
+             /\ env' = [env EXCEPT !.kinds = kinds]
+             /\ hist' = Append(hist, [a |-> "rewrite", how |-> how, kinds |-> kinds, post |-> Describe(f)])
+    /\ pend' = Readers
+    /\ pc' = "read-r"
+    /\ UNCHANGED <<scen, buf, obs>>
+
+\* every reader of the path now returns the new values
+ReadR ==
+    /\ pc = "read-r"
+    /\ \E op \in NextOps(pend) :
+         LET d    == ReadOp(op, "s")
+             rest == pend \ {op}
+         IN  /\ res' = d
+             /\ buf' = [buf EXCEPT !.cache = CacheAfter(op, "s")]
+             /\ hist' = Append(hist, [a |-> op, of |-> "r", post |-> PostOf(d)])
+             /\ pend' = rest
+             /\ pc' = IF rest = {} THEN (IF mem.rev < 1 + Rewrites THEN "rewrite" ELSE "done") ELSE pc
+    /\ UNCHANGED <<scen, fs, env, mem, obs>>
 
 -----------------------------------------------------------------------------
 
@@ -448,13 +517,13 @@ Init ==
     /\ pc = "env"
     /\ fs = [p \in Paths |-> NoFile]
     /\ env = Nothing /\ mem = Nothing /\ res = Nothing
-    /\ buf = [s |-> Nothing, sio |-> Nothing]
+    /\ buf = [s |-> Nothing, sio |-> Nothing, cache |-> Nothing]
     /\ pend = {}
     /\ obs = Nothing
     /\ hist = <<>>
 
 Next == ValEnv \/ ValCli \/ FmtEnv \/ FmtCli \/ FmtApi \/ SchEnv \/ SchCli \/ SchApi
-        \/ ApiGen \/ LoadsT \/ ReadT \/ Write \/ ReadS
+        \/ ApiGen \/ LoadsT \/ ReadT \/ Write \/ ReadS \/ Rewrite \/ ReadR
 
 Spec == Init /\ [][Next]_vars
 
@@ -472,8 +541,12 @@ ExpectMatches  == obs.k = "validate" => /\ (obs.expect.zero <=> obs.status = 0)
 OneLinePerMessage == obs.k = "validate" => obs.lines >= obs.msgs + 1 /\ obs.lines <= obs.msgs + obs.files + 1
 
 \* format / schema: the command writes what the API writes
-FormatIsSaveOpen == (scen = "format" /\ pc = "done") => (fs["out"] = fs["api"] /\ fs["out"].k = "map" /\ mem = res)
+FormatIsSaveOpen == (scen = "format" /\ pc = "done") =>
+                        /\ fs[OutFile(env.target)] = fs[ApiOutFile(env.target)]
+                        /\ fs[OutFile(env.target)].k = "map" /\ mem = res /\ obs.status = 0
 FormatReplaces   == (scen = "format" /\ pc = "done") => fs["out"] # Junk
+\* the input is left alone unless OUT names it
+FormatKeepsInput == (scen = "format" /\ pc = "done" /\ env.target = "other") => fs["in"] = FileOf(SourceText(env.doc), "utf8")
 SchemaIsApi      == (scen = "schema" /\ pc = "done") => (fs["out"] = fs["api"] /\ fs["out"].k = "json")
 
 \* api: every reader returns what the string API returns; all writers write the same characters,
@@ -481,11 +554,13 @@ SchemaIsApi      == (scen = "schema" /\ pc = "done") => (fs["out"] = fs["api"] /
 FrontEndsAgree == (scen = "api" /\ res # Nothing /\ mem # Nothing) => res = mem
 WritersAgree   == scen = "api" =>
                     /\ (buf.s # Nothing /\ buf.sio # Nothing => buf.s = buf.sio)
-                    /\ (buf.s # Nothing /\ fs["s"] # NoFile => fs["s"] = FileOf(buf.s, "utf8"))
+                    /\ (buf.s # Nothing /\ fs["s"] # NoFile /\ mem.rev = 1 => fs["s"] = FileOf(buf.s, "utf8"))
                     /\ (buf.s # Nothing /\ fs["d"] # NoFile => fs["d"] = FileOf(buf.s, "utf8"))
-                    /\ (fs["s"] # NoFile /\ fs["d"] # NoFile => fs["s"] = fs["d"])
-StringsSurvive == (scen = "api" /\ pc \in {"read-s", "done"} /\ res # Nothing) =>
-                    (res.k = "dict" /\ res.strs = env.src.strs)
+                    /\ (fs["s"] # NoFile /\ fs["d"] # NoFile /\ mem.rev = 1 => fs["s"] = fs["d"])
+                    /\ (fs["s"] # NoFile /\ mem.rev > 1 => fs["s"] = FileOf(StrText(mem, env.lay), "utf8"))
+StringsSurvive == (scen = "api" /\ pc \in {"read-s", "rewrite", "read-r", "done"} /\ res # Nothing) =>
+                    (res.k = "dict" /\ res.strs = mem.strs /\ res.rev = mem.rev
+                     /\ (mem.rev = 1 => res.strs = env.src.strs))
 
 \* emission of finished behaviours for the replayer
 Emit == pc = "done" => PrintT(ToJson(hist))
